@@ -153,14 +153,14 @@ type Access struct {
 
 type Path struct {
 	Accesses []Access
-	Facts  []KernelFact
-	Conds  []CondV
-	Events []Event
-	Ret    Value
-	Panic  bool
-	Recv   *Loc
-	Params []Value
-	Locs   []*Loc
+	Facts    []KernelFact
+	Conds    []CondV
+	Events   []Event
+	Ret      Value
+	Panic    bool
+	Recv     *Loc
+	Params   []Value
+	Locs     []*Loc
 	// RecvObj: the receiver object of this path (struct mode; a fresh copy per path when RecvFresh is set)
 	RecvObj *StructVal
 	// Env, Ctl: see Config.Body
@@ -243,18 +243,18 @@ type Config struct {
 }
 
 type Interp struct {
-	cfg     Config
-	info    *types.Info
-	env     []map[types.Object]Value
-	path    *Path
-	choices []bool
-	made    []bool
-	depth   int
-	done    bool
-	ret     Value
-	nloc    int
-	fd      *ast.FuncDecl
-	loopVar map[types.Object]bool
+	cfg       Config
+	info      *types.Info
+	env       []map[types.Object]Value
+	path      *Path
+	choices   []bool
+	made      []bool
+	depth     int
+	done      bool
+	ret       Value
+	nloc      int
+	fd        *ast.FuncDecl
+	loopVar   map[types.Object]bool
 	loopDepth int
 	// ctl: pending "continue"/"break" inside a concretely unrolled loop
 	ctl      string
@@ -262,7 +262,7 @@ type Interp struct {
 	// spread: the call being inlined passes its last argument with `...`
 	spread bool
 	// Loops currently open (outermost first), for events recorded inside loops.
-	loops []LoopCtx
+	loops     []LoopCtx
 	curPos    token.Pos
 	elemCache map[string]*Loc
 	elemMeta  map[*Loc]*elemInfo
